@@ -31,18 +31,18 @@ C03 = [
     _bm("hwloc_bitmap_set", lis=3, cost=15),
     _bm("hwloc_bitmap_clr", lis=3, cost=24),
     _bm("hwloc_bitmap_set_ith_ulong", lis=3, cost=24),
-    _bm("hwloc_bitmap_set_range", lis=10, cost=200, split=3),
-    _bm("hwloc_bitmap_clr_range", lis=10, cost=200, split=3),
+    _bm("hwloc_bitmap_set_range", lis=10, cost=200),
+    _bm("hwloc_bitmap_clr_range", lis=10, cost=200),
     _bm("hwloc_bitmap_isset", cost=1),
     _bm("hwloc_bitmap_iszero", lis=2, cost=1),
     _bm("hwloc_bitmap_isfull", lis=2, cost=1),
     _bm("hwloc_bitmap_isequal", lis=6, cost=2),
     _bm("hwloc_bitmap_intersects", lis=6, cost=2),
     _bm("hwloc_bitmap_isincluded", lis=6, cost=2),
-    _bm("hwloc_bitmap_or", lis=12, cost=260, split=3),
-    _bm("hwloc_bitmap_and", lis=12, cost=280, split=3),
-    _bm("hwloc_bitmap_andnot", lis=12, cost=270, split=3),
-    _bm("hwloc_bitmap_xor", lis=12, cost=210, split=3),
+    _bm("hwloc_bitmap_or", lis=12, cost=260),
+    _bm("hwloc_bitmap_and", lis=12, cost=280),
+    _bm("hwloc_bitmap_andnot", lis=12, cost=270),
+    _bm("hwloc_bitmap_xor", lis=12, cost=210),
     _bm("hwloc_bitmap_not", lis=3, cost=25),
     _bm("hwloc_bitmap_first", lis=2, cost=1),
     _bm("hwloc_bitmap_first_unset", lis=2, cost=1),
@@ -93,5 +93,19 @@ C03 += [
     _bz("hwloc_bitmap_isincluded", lis=6, cost=30),
     _bz("hwloc_bitmap_singlify", lis=10, cost=100, defs={"Q_SINGLIFY": None}),
     _bz("hwloc_bitmap_compare", lis=6, cost=400, defs={"Q_COMPARE": None}, timeout=1800, tiers=("thorough",)),
+]
+
+C03 += [
+    Job(name="hwloc_bitmap_weight__q.unwind", driver="bitmap.drv.c", entry="hq_hwloc_bitmap_weight",
+        enforce="hwloc_bitmap_weight/hwloc_bitmap_weight__q", defines={"VERIF_NO_LOOP_CONTRACTS": None}, unwind=6, loop_contracts=False,
+        label="bounded", family="bitmap", cost=5, fallback=False, note="exact weight, bitmaps <= 4 words, loop unwound 6 times with unwinding assertion"),
+    Job(name="hwloc_bitmap_free_null", driver="bitmap.drv.c", entry="h_hwloc_bitmap_free_null", mode="plain", min_post=0,
+        family="bitmap", cost=1, note="hwloc_bitmap_free(NULL) is a no-op (loop-free, complete)"),
+    Job(name="hwloc_flsl", driver="bitmap.drv.c", entry="hp_hwloc_flsl", mode="plain", min_post=0, family="bitmap", cost=2,
+        note="hwloc_flsl_manual against a bit-level spec over all 2^64 words (loop-free, complete)"),
+    Job(name="hwloc_ffsl", driver="bitmap.drv.c", entry="hp_hwloc_ffsl", mode="plain", min_post=0, family="bitmap", cost=2,
+        note="hwloc_ffsl (__builtin_ffsl as modelled by cbmc) against a bit-level spec over all 2^64 words"),
+    Job(name="hwloc_weight_long", driver="bitmap.drv.c", entry="hp_hwloc_weight_long", mode="plain", min_post=0, unwind=65,
+        family="bitmap", cost=5, note="hwloc_weight_long against the 64-iteration bit count (spec loop unwound completely)"),
 ]
 PROPS["C03"] = C03
